@@ -2011,4 +2011,226 @@ theorem roundtrip_sexp_or_defect (io : DblIO D) (h17 : Dbl17 io) (S A : Nat) (e 
   | true => exact Or.inl rfl
   | false => exact Or.inr (by rw [← h]; exact roundtrip_sexp_src io h17 h S A e hv hdimS hdimA)
 
+/-! ### a non-numeric token anywhere in a written object makes the load fail -/
+
+/-- a token no extraction accepts: not a number for either scanner, not the separator (`abc`, `nan`, `inf`, `1e999`, …) -/
+def Junk (io : DblIO D) (j : Tok) : Prop := io.scanD j = none ∧ scanN j = none ∧ j.head? ≠ some '@'
+
+/-- on every input `p` the reader either succeeds, or fails as soon as a junk token follows `p` (whatever comes after) -/
+def Tri (io : DblIO D) {α} (rd : Rd α) : Prop :=
+  ∀ p, (∃ y r, rd p = .ok y r) ∨ (∀ j q, Junk io j → ∃ e, rd (p ++ j :: q) = .bad e)
+
+theorem tri_rdN (io : DblIO D) : Tri io rdN := by
+  intro p
+  cases p with
+  | nil => exact Or.inr (fun j q hj => ⟨.failbit, by simp [rdN, hj.2.1]⟩)
+  | cons t ts =>
+    cases hs : scanN t with
+    | none => exact Or.inr (fun j q _ => ⟨.failbit, by simp [rdN, hs]⟩)
+    | some v => exact Or.inl ⟨v.1, pushBack v.2 ts, by simp [rdN, hs]⟩
+
+theorem tri_rdD (io : DblIO D) : Tri io (rdD io) := by
+  intro p
+  cases p with
+  | nil => exact Or.inr (fun j q hj => ⟨.failbit, by simp [rdD, hj.1]⟩)
+  | cons t ts =>
+    cases hs : io.scanD t with
+    | none => exact Or.inr (fun j q _ => ⟨.failbit, by simp [rdD, hs]⟩)
+    | some v => exact Or.inl ⟨v.1, pushBack v.2 ts, by simp [rdD, hs]⟩
+
+theorem tri_pure (io : DblIO D) {α} (a : α) : Tri io (Rd.pure a) := fun p => Or.inl ⟨a, p, rfl⟩
+theorem tri_need (io : DblIO D) (c : Bool) : Tri io (need c) := by
+  intro p
+  cases c with
+  | true => exact Or.inl ⟨(), p, rfl⟩
+  | false => exact Or.inr (fun j q _ => ⟨.failbit, rfl⟩)
+
+theorem tri_bind (io : DblIO D) {α β} (m : Rd α) (f : α → Rd β) (hm : Tri io m) (hext : Ext m) (hf : ∀ a, Tri io (f a)) :
+    Tri io (Rd.bind m f) := by
+  intro p
+  rcases hm p with ⟨a, s1, h1⟩ | h1
+  · rcases hf a s1 with ⟨y, r, h2⟩ | h2
+    · exact Or.inl ⟨y, r, by simp [h1, h2]⟩
+    · refine Or.inr (fun j q hj => ?_)
+      obtain ⟨e, he⟩ := h2 j q hj
+      exact ⟨e, by simp [hext p (j :: q) a s1 h1, he]⟩
+  · refine Or.inr (fun j q hj => ?_)
+    obtain ⟨e, he⟩ := h1 j q hj
+    exact ⟨e, by simp [he]⟩
+
+theorem tri_rep (io : DblIO D) {α} (rd : Rd α) (h : Tri io rd) (hext : Ext rd) : ∀ n, Tri io (rep rd n)
+  | 0 => tri_pure io []
+  | n + 1 => tri_bind io _ _ h hext (fun _ => tri_bind io _ _ (tri_rep io rd h hext n) (ext_rep rd hext n) (fun _ => tri_pure io _))
+
+theorem tri_guard (io : DblIO D) {α} (c : Bool) (m : Rd α) (hm : Tri io m) : Tri io (fun s => if c then R.bad Sig.threw else m s) := by
+  intro p
+  cases c with
+  | true => exact Or.inr (fun j q _ => ⟨.threw, rfl⟩)
+  | false => simpa using hm p
+
+theorem tri_rdMat (io : DblIO D) (rows cols : Nat) : Tri io (rdMat io rows cols) :=
+  tri_rep io _ (tri_rep io _ (tri_rdD io) (ext_rdD io) cols) (ext_rep _ (ext_rdD io) cols) rows
+theorem tri_rdMat3 (io : DblIO D) (k rows cols : Nat) : Tri io (rdMat3 io k rows cols) :=
+  tri_rep io _ (tri_rdMat io rows cols) (ext_rdMat io rows cols) k
+theorem tri_rdTab3 (io : DblIO D) (k rows cols : Nat) : Tri io (rdTab3 k rows cols) :=
+  tri_rep io _ (tri_rep io _ (tri_rep io _ (tri_rdN io) ext_rdN cols) (ext_rep _ ext_rdN cols) rows) (ext_rep _ (ext_rep _ ext_rdN cols) rows) k
+
+theorem tri_rdTriplets (io : DblIO D) {V} (rdV : Rd V) (hV : Tri io rdV) (hVe : Ext rdV) (rows cols : Nat) :
+    ∀ n, Tri io (rdTriplets rdV rows cols n)
+  | 0 => tri_pure io []
+  | n + 1 =>
+    tri_bind io _ _ (tri_rdN io) ext_rdN fun _ => tri_bind io _ _ (tri_rdN io) ext_rdN fun _ => tri_bind io _ _ hV hVe fun _ =>
+    tri_bind io _ _ (tri_need io _) (ext_need _) fun _ => tri_bind io _ _ (tri_need io _) (ext_need _) fun _ =>
+    tri_bind io _ _ (tri_rdTriplets io rdV hV hVe rows cols n) (ext_rdTriplets rdV hVe rows cols n) fun _ => tri_pure io _
+
+theorem tri_rdSpGen (io : DblIO D) {V} (rdV : Rd V) (hV : Tri io rdV) (hVe : Ext rdV) (add : V → V → V) (rows cols : Nat) :
+    Tri io (rdSpGen rdV add rows cols) :=
+  tri_bind io _ _ (tri_rdN io) ext_rdN fun _ => tri_bind io _ _ (tri_need io _) (ext_need _) fun _ =>
+  tri_bind io _ _ (tri_rdTriplets io rdV hV hVe rows cols _) (ext_rdTriplets rdV hVe rows cols _) fun _ => tri_pure io _
+
+theorem tri_rdSpMat (io : DblIO D) (rows cols : Nat) : Tri io (rdSpMat io rows cols) :=
+  tri_rdSpGen io _ (tri_rdD io) (ext_rdD io) _ rows cols
+theorem tri_rdSpMat3 (io : DblIO D) (k rows cols : Nat) : Tri io (rdSpMat3 io k rows cols) :=
+  tri_rep io _ (tri_rdSpMat io rows cols) (ext_rdSpMat io rows cols) k
+theorem tri_rdCount (io : DblIO D) (vd : Bool) : Tri io (rdCount io vd) := by
+  cases vd with
+  | false => exact tri_rdN io
+  | true => exact tri_bind io _ _ (tri_rdD io) (ext_rdD io) fun _ => tri_pure io _
+theorem tri_rdSpTab3 (io : DblIO D) (vd : Bool) (k rows cols : Nat) : Tri io (rdSpTab3 io vd k rows cols) :=
+  tri_rep io _ (tri_rdSpGen io _ (tri_rdCount io vd) (ext_rdCount io vd) _ rows cols) (ext_rdSpGen _ (ext_rdCount io vd) _ rows cols) k
+
+theorem tri_rdDExp (io : DblIO D) (S A : Nat) : Tri io (rdDExp io S A) :=
+  tri_bind io _ _ (tri_rdN io) ext_rdN fun _ => tri_bind io _ _ (tri_rdTab3 io A S S) (ext_rdTab3 A S S) fun _ =>
+  tri_bind io _ _ (tri_rdMat io S A) (ext_rdMat io S A) fun _ => tri_bind io _ _ (tri_rdMat io S A) (ext_rdMat io S A) fun _ => tri_pure io _
+theorem tri_rdSExp (io : DblIO D) (vd : Bool) (S A : Nat) : Tri io (rdSExp io vd S A) :=
+  tri_bind io _ _ (tri_rdN io) ext_rdN fun _ => tri_bind io _ _ (tri_rdSpTab3 io vd A S S) (ext_rdSpTab3 io vd A S S) fun _ =>
+  tri_bind io _ _ (tri_rdSpMat io S A) (ext_rdSpMat io S A) fun _ => tri_bind io _ _ (tri_rdSpMat io S A) (ext_rdSpMat io S A) fun _ => tri_pure io _
+theorem tri_rdDModel (io : DblIO D) (S A : Nat) : Tri io (rdDModel io S A) :=
+  tri_bind io _ _ (tri_rdD io) (ext_rdD io) fun d => tri_guard io (!io.discountOk d) _
+    (tri_bind io _ _ (tri_rdMat3 io A S S) (ext_rdMat3 io A S S) fun _ => tri_bind io _ _ (tri_need io _) (ext_need _) fun _ =>
+     tri_bind io _ _ (tri_rdMat io S A) (ext_rdMat io S A) fun _ => tri_pure io _)
+theorem tri_rdSModel (io : DblIO D) (S A : Nat) : Tri io (rdSModel io S A) :=
+  tri_bind io _ _ (tri_rdD io) (ext_rdD io) fun d => tri_guard io (!io.discountOk d) _
+    (tri_bind io _ _ (tri_rdSpMat3 io A S S) (ext_rdSpMat3 io A S S) fun _ => tri_bind io _ _ (tri_need io _) (ext_need _) fun _ =>
+     tri_bind io _ _ (tri_rdSpMat io S A) (ext_rdSpMat io S A) fun _ => tri_pure io _)
+theorem tri_rdPD (io : DblIO D) {M} (rdM : Rd M) (hM : Tri io rdM) (hMe : Ext rdM) (S A O : Nat) : Tri io (rdPD io rdM S A O) :=
+  tri_bind io _ _ hM hMe fun _ => tri_bind io _ _ (tri_rdMat3 io A S O) (ext_rdMat3 io A S O) fun _ =>
+  tri_bind io _ _ (tri_need io _) (ext_need _) fun _ => tri_pure io _
+theorem tri_rdPS (io : DblIO D) {M} (rdM : Rd M) (hM : Tri io rdM) (hMe : Ext rdM) (S A O : Nat) : Tri io (rdPS io rdM S A O) :=
+  tri_bind io _ _ hM hMe fun _ => tri_bind io _ _ (tri_rdSpMat3 io A S O) (ext_rdSpMat3 io A S O) fun _ =>
+  tri_bind io _ _ (tri_need io _) (ext_need _) fun _ => tri_pure io _
+theorem tri_rdMPol (io : DblIO D) (S A : Nat) : Tri io (rdMPol io S A) :=
+  tri_bind io _ _ (tri_rdMat io S A) (ext_rdMat io S A) fun _ => tri_bind io _ _ (tri_need io _) (ext_need _) fun _ => tri_pure io _
+
+/-- **generic**: replace any token of a written object by a junk token (and let anything follow): the read fails -/
+theorem junk_token_fails (io : DblIO D) {α} (rd : Rd α) (wr : α → Stream) (htri : Tri io rd) (hext : Ext rd) (x : α)
+    (hrt : RoundTrips rd wr x) (p : Stream) (t : Tok) (q q' : Stream) (hpq : wr x = p ++ t :: q) (j : Tok) (hj : Junk io j) :
+    ∃ e, rd (p ++ j :: q') = .bad e := by
+  rcases htri p with ⟨y, r, h⟩ | h
+  · obtain ⟨e, he⟩ := strict_prefix_fails rd wr hext x hrt p (t :: q) hpq (by simp)
+    rw [he] at h; cases h
+  · exact h j q' hj
+
+/-- at the level of `operator>>`: the corrupted file is rejected with a failure signal, destination untouched -/
+theorem corrupted_load_rejected (io : DblIO D) {α} (rd : Rd α) (wr : α → Stream) (htri : Tri io rd) (hext : Ext rd) (x : α)
+    (hrt : RoundTrips rd wr x) (dest : α) (p : Stream) (t : Tok) (q q' : Stream) (hpq : wr x = p ++ t :: q) (j : Tok) (hj : Junk io j) :
+    (load rd dest (p ++ j :: q')).sig ≠ none ∧ (load rd dest (p ++ j :: q')).dest = dest := by
+  obtain ⟨e, he⟩ := junk_token_fails io rd wr htri hext x hrt p t q q' hpq j hj
+  simp [load, he]
+
+
+theorem tri_rdEntry (io : DblIO D) (S A O oldH : Nat) : Tri io (rdEntry io S A O oldH) :=
+  tri_bind io _ _ (tri_rep io _ (tri_rdD io) (ext_rdD io) S) (ext_rep _ (ext_rdD io) S) fun _ =>
+  tri_bind io _ _ (tri_rdN io) ext_rdN fun _ => tri_bind io _ _ (tri_need io _) (ext_need _) fun _ =>
+  tri_bind io _ _
+    (tri_rep io _ (tri_bind io _ _ (tri_rdN io) ext_rdN fun _ => tri_bind io _ _ (tri_need io _) (ext_need _) fun _ => tri_pure io _)
+      (ext_bind _ _ ext_rdN fun _ => ext_bind _ _ (ext_need _) fun _ => ext_pure _) O)
+    (ext_rep _ (ext_bind _ _ ext_rdN fun _ => ext_bind _ _ (ext_need _) fun _ => ext_pure _) O) fun _ => tri_pure io _
+
+theorem atSign_false_snd (s : Stream) (h : (atSign s).1 = false) : (atSign s).2 = s := by
+  unfold atSign at *
+  split
+  · rename_i r ts; simp at h
+  · rfl
+
+theorem atSign_append_junk (io : DblIO D) (s q : Stream) (j : Tok) (hj : Junk io j) :
+    atSign (s ++ j :: q) = ((atSign s).1, (atSign s).2 ++ j :: q) := by
+  cases s with
+  | nil => simpa [atSign] using atSign_nonAt j q hj.2.2
+  | cons t ts => exact atSign_append (t :: ts) (j :: q) (by simp)
+
+theorem tri_polLoop (io : DblIO D) (S A O : Nat) : ∀ (f : Nat) (vf : VF D) (b : Bool) (o : Nat), Tri io (polLoop io S A O f vf b o)
+  | 0, _, _, _ => fun p => Or.inr (fun j q _ => ⟨.failbit, by simp [polLoop]⟩)
+  | f + 1, vf, true, o => by
+    intro p
+    cases hb : (atSign p).1 with
+    | true =>
+      have e1 : atSign p = (true, (atSign p).2) := by rw [← hb]
+      exact Or.inl ⟨vf, (atSign p).2, by simp only [polLoop]; rw [e1]⟩
+    | false =>
+      have e1 : atSign p = (false, p) := Prod.ext hb (atSign_false_snd p hb)
+      rcases tri_polLoop io S A O f (vf ++ [[]]) false (lastLen vf) p with ⟨y, r, h⟩ | h
+      · exact Or.inl ⟨y, r, by simp only [polLoop]; rw [e1]; exact h⟩
+      · refine Or.inr (fun j q hj => ?_)
+        obtain ⟨e, he⟩ := h j q hj
+        have e2 : atSign (p ++ j :: q) = (false, p ++ j :: q) := by
+          rw [atSign_append_junk io p q j hj, e1]
+        exact ⟨e, by simp only [polLoop]; rw [e2]; exact he⟩
+  | f + 1, vf, false, o => by
+    intro p
+    rcases tri_rdEntry io S A O o p with ⟨en, s1, h1⟩ | h1
+    · cases hb : atSign s1 with
+      | mk b s2 =>
+        rcases tri_polLoop io S A O f (appendToLast vf en) b o s2 with ⟨y, r, h⟩ | h
+        · exact Or.inl ⟨y, r, by simp only [polLoop, h1, hb]; exact h⟩
+        · refine Or.inr (fun j q hj => ?_)
+          obtain ⟨e, he⟩ := h j q hj
+          have h2 := ext_rdEntry io S A O o p (j :: q) en s1 h1
+          have h3 : atSign (s1 ++ j :: q) = (b, s2 ++ j :: q) := by rw [atSign_append_junk io s1 q j hj, hb]
+          exact ⟨e, by simp only [polLoop, h2, h3]; exact he⟩
+    · refine Or.inr (fun j q hj => ?_)
+      obtain ⟨e, he⟩ := h1 j q hj
+      exact ⟨e, by simp only [polLoop, he]⟩
+
+theorem tri_rdPPol (io : DblIO D) (hsh : ScanShrinks io) (S A O : Nat) : Tri io (rdPPol io S A O) := by
+  intro p
+  cases hp : rdPPol io S A O p with
+  | ok y r => exact Or.inl ⟨y, r, rfl⟩
+  | bad e0 =>
+    refine Or.inr (fun j q hj => ?_)
+    rcases tri_polLoop io S A O (2 * streamSize (p ++ j :: q) + 2) (vf0 io S) true 1 p with ⟨y, r, h⟩ | h
+    · have := rdPPol_fuel_free io hsh S A O p (2 * streamSize (p ++ j :: q) + 2) (by rw [streamSize_append]; omega)
+      rw [this, hp] at h; cases h
+    · exact h j q hj
+
+/-- **POMDP::Policy**: any token of a written policy replaced by a junk token — the load is rejected, destination untouched -/
+theorem corrupted_rejected_ppol [DecidableEq D] (io : DblIO D) (hat : NoAt io) (hsh : ScanShrinks io) (pr : Prec) (S A O : Nat) (vf : VF D)
+    (hv : ppolValidB io S A O vf = true) (hA : A ≤ two64) (hlen : ∀ l ∈ vf, l.length ≤ two64)
+    (hrt : ∀ l ∈ vf.drop 1, ∀ e ∈ l, ∀ d ∈ e.values, RT io pr.pomdpPolicy d)
+    (dest : VF D) (p : Stream) (t : Tok) (q q' : Stream) (hpq : wrPPol io pr vf = p ++ t :: q) (j : Tok) (hj : Junk io j) :
+    (load (rdPPol io S A O) dest (p ++ j :: q')).sig ≠ none ∧ (load (rdPPol io S A O) dest (p ++ j :: q')).dest = dest :=
+  corrupted_load_rejected io _ _ (tri_rdPPol io hsh S A O) (ext_rdPPol io S A O) vf
+    (roundtrip_ppol io hat pr S A O vf hv hA hlen hrt) dest p t q q' hpq j hj
+
+/-- **MDP::Model** -/
+theorem corrupted_rejected_dmodel (io : DblIO D) (pr : Prec) (S A : Nat) (m : DModel D) (hv : dmodelValidB io S A m = true)
+    (hd : RT io pr.scalar m.discount) (ht : AllMat3 (RT io pr.dense) m.T) (hr : AllMat (RT io pr.dense) m.R)
+    (dest : DModel D) (p : Stream) (t : Tok) (q q' : Stream) (hpq : wrDModel io pr m = p ++ t :: q) (j : Tok) (hj : Junk io j) :
+    (load (rdDModel io S A) dest (p ++ j :: q')).sig ≠ none ∧ (load (rdDModel io S A) dest (p ++ j :: q')).dest = dest :=
+  corrupted_load_rejected io _ _ (tri_rdDModel io S A) (ext_rdDModel io S A) m (roundtrip_dmodel io pr S A m hv hd ht hr) dest p t q q' hpq j hj
+
+/-- **MDP::SparseExperience** -/
+theorem corrupted_rejected_sexp (io : DblIO D) (pr : Prec) (vd : Bool) (S A : Nat) (e : SExp D) (hv : sexpValidB S A e = true)
+    (hdimS : S * S < two64) (hdimA : S * A < two64) (hc : ∀ t ∈ e.visits, ∀ x ∈ t, CountRT io vd x.v)
+    (hr : ∀ x ∈ e.rewards, RT io pr.sparse x.v) (hm : ∀ x ∈ e.m2, RT io pr.sparse x.v)
+    (dest : SExp D) (p : Stream) (t : Tok) (q q' : Stream) (hpq : wrSExp io pr e = p ++ t :: q) (j : Tok) (hj : Junk io j) :
+    (load (rdSExp io vd S A) dest (p ++ j :: q')).sig ≠ none ∧ (load (rdSExp io vd S A) dest (p ++ j :: q')).dest = dest :=
+  corrupted_load_rejected io _ _ (tri_rdSExp io vd S A) (ext_rdSExp io vd S A) e
+    (roundtrip_sexp io pr vd S A e hv hdimS hdimA hc hr hm) dest p t q q' hpq j hj
+
+/-- test: the harness's corruption tokens `abc`, `nan` (and `inf`, `x`) are junk for the driver's instance;
+    `1e999` is not (an integer extraction reads the `1` and leaves `e999`) -/
+example : Junk (ratIO 0) "abc".toList ∧ Junk (ratIO 0) "nan".toList ∧ Junk (ratIO 0) "inf".toList ∧ ¬ Junk (ratIO 0) "1e999".toList := by
+  unfold Junk; decide +kernel
+
 end AITB.Codec
